@@ -193,3 +193,38 @@ def type_narrowed_dead_params(run, rule: str, functions) -> int:
                    f"`{p}` is read only when it is an instance of the tested type(s): an argument of any other accepted type (e.g. an ndarray where a "
                    f"Tensor is tested) is silently ignored", path=path)
     return n
+
+
+_ALLOC_LIKE = ("empty_like", "zeros_like", "ones_like", "full_like")
+
+
+def buffer_fill(cfg: CFG, buf: str, at: int):
+    """The allocate-then-fill idiom:  `buf = np.empty_like(E, ...)` (every reaching definition of `buf` at node `at` is such an allocation)
+    followed by `np.copyto(buf, S)` / `buf[...] = S` that dominates `at` and is dominated by the allocation.
+    Returns (allocation call, E, fill node, S expression) or None.  `buf` then holds the values of S in the shape and layout of E."""
+    from ..cfg import reaching_defs
+    defs = reaching_defs(cfg, buf, at)
+    if not defs or ENTRY in defs:
+        return None
+    allocs = []
+    for d in defs:
+        v = getattr(cfg.stmt[d], "value", None)
+        if not (isinstance(v, ast.Call) and (dotted(v.func) or norm(v.func)).split(".")[-1] in _ALLOC_LIKE and v.args):
+            return None
+        allocs.append((d, v))
+    like = {norm(v.args[0]) for _, v in allocs}
+    if len(like) != 1:
+        return None
+    for n, st in cfg.stmt.items():
+        src = None
+        if isinstance(st, ast.Expr) and isinstance(st.value, ast.Call) and (dotted(st.value.func) or norm(st.value.func)).split(".")[-1] == "copyto" \
+                and len(st.value.args) >= 2 and norm(st.value.args[0]) == buf and not any(k.arg == "where" for k in st.value.keywords):
+            src = st.value.args[1]
+        elif isinstance(st, ast.Assign) and len(st.targets) == 1 and isinstance(st.targets[0], ast.Subscript) and norm(st.targets[0].value) == buf \
+                and norm(st.targets[0].slice) in ("...", "Ellipsis", ":", "()"):
+            src = st.value
+        if src is None:
+            continue
+        if (n == at or cfg.dominates(n, at)) and all(cfg.dominates(d, n) for d, _ in allocs):
+            return allocs[0][1], allocs[0][1].args[0], n, src
+    return None
